@@ -210,6 +210,9 @@ CHECKS = {
         "thorough": {"shards": 16, "rounds": 4, "checks": 600, "timeout": 3000},
         "shrinktime": "60s",
         "assumptions": [
+            "registry and service calls of the driver go through tracking proxies; a call outstanding for 5 s of heartbeat time is the verdict registry_call_blocked:<call>",
+            "a slow commit is produced by a 2-30 ms sleep inside the pass-through backend's ApplyBatch; the second finisher or cleanup starts only after the first has entered the storage, so the first always wins",
+            "aged mode: idle limit 20-30 ms, lifetime limit 10x that, thresholds 75/90 or 50/75; every sweep is preceded by idle + 5 ms of sleep, age bands are reached by waiting and only counted, not judged",
             "a service call whose request context is already cancelled or expired is not judged by its result, only by its aftermath (transaction ended as a whole or still reachable, lock released, state consistent with what was reported)",
             "storage faults are injected only at ApplyBatch of a commit, through a pass-through backend over engine.VerifStorage()",
             "liveness is decided with a bound: a begin that nothing legitimately stands in the way of must return within 5 s (normal: microseconds); the bound drops to 1 s only after a still-active transaction has been shown to be unreachable for every client, registry entry and goroutine",
